@@ -50,6 +50,19 @@ theorem bind_all {α β} (P : Act → Prop) (x : R α) (f : α → R β)
     · exact hx a h
     · exact hf v a h
 
+/-- as `bind_all`; the continuation only matters on the value `x` actually produced -/
+theorem bind_all' {α β} (P : Act → Prop) (x : R α) (f : α → R β)
+    (hx : ∀ a ∈ x.1, P a) (hf : ∀ v, x.2 = .ok v → ∀ a ∈ (f v).1, P a) : ∀ a ∈ (x.bind f).1, P a := by
+  obtain ⟨t, r⟩ := x
+  cases r with
+  | error e => simpa [R.bind] using hx
+  | ok v =>
+    simp only [R.bind]
+    intro a ha
+    rcases List.mem_append.mp ha with h | h
+    · exact hx a h
+    · exact hf v rfl a h
+
 theorem bind_failed_left {α β} (x : R α) (f : α → R β) (h : x.failed) : (x.bind f).failed := by
   obtain ⟨t, r⟩ := x
   obtain ⟨e, he⟩ := h
@@ -107,6 +120,10 @@ theorem length_bind_le {α β} (x : R α) (f : α → R β) (n m : Nat) (hx : x.
   cases r with
   | error e => simp [R.bind] at *; omega
   | ok v => have := hf v; simp [R.bind] at *; omega
+
+theorem length_bind_le' {α β} {x : R α} {f : α → R β} (n m N : Nat) (hx : x.1.length ≤ n)
+    (hf : ∀ v, (f v).1.length ≤ m) (hN : n + m ≤ N) : (x.bind f).1.length ≤ N :=
+  Nat.le_trans (length_bind_le x f n m hx hf) hN
 
 end R
 
